@@ -227,7 +227,12 @@ func GenLedgerPlan(p *PRNG, cfg Config, o LedgerGenOpts) Plan {
 			}
 			// directed pattern: a key replaced twice and an opt-out within one epoch (C07)
 			if kind == "setkey" && op.A != 0 && op.E == 0 && p.Chance(1, 4) {
-				b.Ops = append(b.Ops, Op{K: "setkey", A: op.A, D: (op.D + 1 + p.Intn(ConsKeyPool-1)) % ConsKeyPool})
+				if p.Chance(1, 2) {
+					// back to the genesis key and on to a third one
+					b.Ops = append(b.Ops, Op{K: "setkey", A: op.A, D: 0}, Op{K: "setkey", A: op.A, D: (op.D + 1 + p.Intn(ConsKeyPool-1)) % ConsKeyPool})
+				} else {
+					b.Ops = append(b.Ops, Op{K: "setkey", A: op.A, D: (op.D + 1 + p.Intn(ConsKeyPool-1)) % ConsKeyPool})
+				}
 				if p.Chance(1, 2) {
 					b.Ops = append(b.Ops, Op{K: "optout", A: op.A})
 				}
